@@ -18,7 +18,8 @@ META = dict(
                "theorems (control points = m.ctrl; arc centre/form/flags = transported ones, plus rational sample points).",
     level_note="Trusted: Coq kernel + vm_compute, the translator's rendering of the loop-free subset, the harness. Rotation "
                "angles, Eigen/Sqrt/Atan2 inside Transform's arc arm are not modelled: their results are judged (transported conic "
-               "within 2^-20 relative, samples) on generated inputs only. ToSVG's text is not interpreted.",
+               "within 2^-20 relative, samples) on generated inputs only. ToSVG's text is parsed by the harness and interpreted by the "
+               "SVG transform-list semantics in the judge (8 printed decimals: slack 2^-20).",
     harness=["translator", "c07"],
 )
 
@@ -29,10 +30,12 @@ FLAGS = {1: "prop:Matrix-method-disobeys-the-documented-algebra(model)", 2: "tie
          16: "prop:arc-flags(sweep/large)", 32: "prop:arc-conic/centre!=transported", 64: "prop:arc-sample-off-output-arc",
          128: "prop:panic", 256: "prop:Inv-not-inverse", 512: "prop:Decompose-does-not-recompose", 1024: "rel:cos/sin-relation",
          2048: "gen:inconsistent-generator-arc", 4096: "prop:command-structure-changed-or-non-finite-arc",
-         8192: "prop:non-finite-radius-for-image-ellipse-with-eigenvalue-ratio<=2^-33"}
+         8192: "prop:non-finite-radius-for-image-ellipse-with-eigenvalue-ratio<=2^-33",
+         16384: "prop:ToSVG-text-denotes-a-different-transformation",
+         32768: "prop:ToSVG-list-form-drops-translate(0,h)-for-a-matrix-without-translation"}
 # flag 1: for the loop-free Matrix methods the model IS the documented algebra (matrix product, application, transpose,
 # determinant, elementary matrices), so a disagreement of the Go result is a violation of the property itself
-PROP_MASK = 1 | 4 | 8 | 16 | 32 | 64 | 128 | 256 | 512 | 4096 | 8192
+PROP_MASK = 1 | 4 | 8 | 16 | 32 | 64 | 128 | 256 | 512 | 4096 | 8192 | 16384 | 32768
 TIE_MASK = 2 | 1024 | 2048
 
 
@@ -134,7 +137,9 @@ def run(ctx):
         if f:
             if f["key"] not in reported:
                 reported.add(f["key"])
-                ctx.known_finding("%s (e.g. %s under %s)" % (f["what"], c["desc"].get("path"), c["desc"].get("matrix")))
+                d = c["desc"]
+                eg = ("%s under %s" % (d.get("path"), d.get("matrix"))) if "path" in d else ("m = %s, h = %s -> %r" % (d.get("a"), d.get("h"), d.get("tosvg")))
+                ctx.known_finding("%s (e.g. %s)" % (f["what"], eg))
         else:
             new_prop.append((c, fl))
     new_prop.sort(key=lambda t: len(json.dumps(t[0]["desc"])))
@@ -172,7 +177,7 @@ def run(ctx):
             "relational inputs supplied by the Go side and constrained by the judge: cos/sin of Rotate's angle and of the output arc's phi (c^2+s^2 = 1 within 2^-40), arc centres derived by ellipseToCenter (end points must lie on the conic around them)",
             "explicit slacks: 2^-40 relative to the sum of |terms| for inexact Matrix methods and mapped points; 2^-20 relative for the transported conic coefficients, centre and sample membership of arcs; 2^-30 for Inv/Decompose recomposition"]),
         evaluations=len(cases), distinct=len(distinct), distinct_nontrivial=len(nontrivial),
-        rule="one evaluation = one K1 matrix case (17 method results of the Go code compared with the model) or one (path, matrix) pair through "
+        rule="one evaluation = one K1 matrix case (18 method results of the Go code compared with the model, Inv, Decompose, ToSVG) or one (path, matrix) pair through "
              "Path.Transform judged by Corr.C07.judge; distinct by the printed input; non-trivial: the judge certified at least one inner obligation "
              "(a control point equal to m.ctrl, or a decisive arc sample)",
         inner_obligations_certified=inner,
@@ -186,4 +191,4 @@ def run(ctx):
         "coordinates and matrices on dyadic grids; 'exact' families are chosen so that every binary64 operation of the compared method is exact",
         "arcs have rational centre / rotation / end points (Pythagorean triples); the angle phi handed to the code is the binary64 rounding of the exact angle",
         "Equal(det, 0) is modelled as det == 0: matrices with 0 < |det| <= 1e-10 are not generated (smallest |det| generated: 2^-20)",
-        "ToSVG text is not interpreted"])
+        "ToSVG is judged for page heights 0, 10 and 297; rotate() items carry the binary64 cos/sin of the printed angle"])
